@@ -239,3 +239,69 @@ func c10AllOpt(c *explore.C) {
 	}
 	harness.Cur.Outcome(harness.Hash64(want, []byte{byte(pos)}), fmt.Sprintf("pos%d", pos))
 }
+
+// ---- C04 phase 2: size/buffer contract on types with default initialisers ----
+
+func c04Static(c *explore.C) {
+	universe.DfltTable = universe.Dflt{}
+	proto := universe.DfltSpec()
+	k := c.Choose(13, explore.Data, "field")
+	f := proto.Fields[k]
+	alpha := universe.Alphabet(f.Type, universe.Quick, 1)
+	if f.Type.Kind == ref.KList || f.Type.Kind == ref.KMap {
+		alpha = alpha[:4]
+	}
+	ai := c.Choose(len(alpha)+1, explore.Data, "declared-default")
+	bi := c.Choose(len(alpha)+1, explore.Data, "field-value")
+	nested := c.Bool(explore.Data, "nested")
+	harness.Cur.Crumb(c.Choices())
+	table := c10BaseTable(proto)
+	if ai < len(alpha) {
+		table.F[k] = alpha[ai].Clone()
+	}
+	universe.SetDfltTable(proto, table)
+	hooks.Reset()
+	spec := universe.DfltSpec()
+	val := table.Clone()
+	if bi < len(alpha) {
+		val.F[k] = alpha[bi].Clone()
+	}
+	S, V := spec, val
+	if nested {
+		S = universe.DfltOuterSpec(spec)
+		V = ref.ZeroStruct(S)
+		V.F[1] = table.Clone()
+		V.F[2] = ref.List(ref.KList, val, table.Clone())
+	}
+	how := fmt.Sprintf("field %s declared default %s value %s nested=%v", f.Name, table.F[k].Short(), val.F[k].Short(), nested)
+	src := universe.New(S, V)
+	want := ref.Encode(S, V)
+	for _, a := range []struct {
+		name string
+		arg  interface{}
+	}{{"pointer", src.Interface()}, {"value", src.Elem().Interface()}} {
+		sz := Size(a.arg)
+		if sz.Panic != nil || sz.N != len(want) {
+			c.Fail(fmt.Sprintf("EncodedSize(%s) = %v, the encoding has %d bytes [%s]", a.name, sz, len(want), how), mkCase("C04", "size-mismatch", S, V, nil, how))
+			return
+		}
+		w := NewWindow(len(want), 16)
+		r := Enc(w.Buf(), a.arg)
+		if r.Panic != nil || r.Err != nil || r.N != len(want) {
+			c.Fail(fmt.Sprintf("EncodeObject(%s) into a buffer of EncodedSize bytes: %v [%s]", a.name, r, how), mkCase("C04", "sufficient-buffer-rejected", S, V, nil, how))
+			return
+		}
+		if len(want) > 0 {
+			w2 := NewWindow(len(want)-1, 16)
+			if r := Enc(w2.Buf(), a.arg); r.Panic != nil || r.Err == nil {
+				c.Fail(fmt.Sprintf("EncodeObject(%s) into a one-byte-short buffer: %v [%s]", a.name, r, how), mkCase("C04", "short-buffer-accepted", S, V, nil, how))
+				return
+			}
+			if off, bad := w2.Dirty(len(want) - 1); bad {
+				c.Fail(fmt.Sprintf("EncodeObject(%s) wrote past a short buffer at offset %d [%s]", a.name, off, how), mkCase("C04", "write-past-buffer", S, V, nil, how))
+				return
+			}
+		}
+	}
+	harness.Cur.Outcome(harness.Hash64(want, []byte(how)), f.Name)
+}
